@@ -759,10 +759,13 @@ def stage_on_bound(ctx, rec, exprs, metas):
             ctx.violation("on-bound:%s:%s:recovery" % (skind, side), "generating parameters not recovered to 1e-3 when the guess of %s lies "
                           "exactly on the %s bound of its prior (truth 3%% inside, all other parameters start at the truth); relative "
                           "error %.3g" % (which, "upper" if side == "hi" else "lower", err), dict(values=vals, rel_err=err, **info))
-        # in every case: the result must not sit ON the bound it started from while the misfit decreases towards the interior
+        # likewise (others at the truth): the result must not sit ON the bound it started from while the misfit decreases
+        # towards the interior.  (With every parameter perturbed the unchanged mpfit sometimes stops in a shallow valley along
+        # the bound - seed 1: chi^2 0.1188 with a 2e-3 relative descent left - which is the optimiser's convergence, not
+        # HoloPy's wiring, and is not demanded.)
         iv = names.index(which)
         bound = hi if side == "hi" else lo
-        if abs(vals[iv] - bound) <= 1e-12 * abs(bound):
+        if k % 2 == 0 and abs(vals[iv] - bound) <= 1e-12 * abs(bound):
             inward = list(vals)
             inward[iv] = bound * (1 - 1e-4) if side == "hi" else bound * (1 + 1e-4)
             c0, c1 = chisq(model, vals, data, noise), chisq(model, inward, data, noise)
